@@ -4,31 +4,49 @@
 (* A-layer result; the invariant is the P-layer.  The dump of this run is replayed into the real cnvlib     *)
 (* code (direction 1).                                                                                      *)
 EXTENDS Genes
-CONSTANTS MaxLen1,    \* bins on chromosome 1: 1..MaxLen1
-          MaxLen2,    \* bins on chromosome 2: 1..MaxLen2 (used when 2 \in NChroms)
-          NChroms,    \* subset of {1, 2}: numbers of chromosomes enumerated
-          Labels,     \* the label alphabet (each label a sequence of names)
-          IxModes,    \* row-index modes, subset of 0..3
-          McOps,      \* operations enumerated in this run
-          Pats,       \* value patterns (subset of 1..2)
-          ThrSet,     \* thresholds <<num, den>>
-          MinpSet,    \* min_probes values
-          SexSet      \* <<female, haploid_x_reference, last chromosome is X>>
+CONSTANTS Tier,       \* "quick" or "thorough": which table of scopes below is enumerated
+          ScopeIds    \* the scopes of that table enumerated in this run (indices into Scopes(Tier))
 
-(* named values for the cfg files (a TLC cfg cannot spell tuples): CONSTANT Labels <- LabelsPlain etc. *)
+(* ---- the scope: one record per (operations, table shape, parameter sets) -------------------------------- *)
 LabelsPlain == {<<"A">>, <<"B">>, <<"Antitarget">>, <<"-">>, <<"CGH">>}
 LabelsFour  == {<<"A">>, <<"B">>, <<"Antitarget">>, <<"-">>}
 LabelsThree == {<<"A">>, <<"B">>, <<"-">>}
 LabelsComma == {<<"A">>, <<"B">>, <<"A", "B">>, <<"-">>}          \* "A,B": one bin in two genes
 ThrTwo   == {<<0, 1>>, <<1, 2>>}                                  \* 0 and 0.5
 ThrThree == {<<0, 1>>, <<1, 2>>, <<1, 5>>}                        \* ... and the default 0.2
-SexNone  == {<<TRUE, FALSE, FALSE>>}                              \* no adjustment
+SexNone  == {<<TRUE, FALSE, FALSE>>}                              \* <<female, haploid_x_reference, last chromosome is X>>: no adjustment
 SexTwo   == {<<TRUE, FALSE, FALSE>>, <<FALSE, FALSE, TRUE>>}      \* none; male sample, diploid-X reference: X + 1
 SexThree == SexTwo \cup {<<TRUE, TRUE, TRUE>>}                    \* female sample, haploid-X reference: X - 1
+(* ops: operations; len1/len2: bins on chromosome 1 / 2 (len2 = 0: one chromosome); labels: alphabet;       *)
+(* modes: row-index modes (IxOf); pats: value patterns; thr, minp, sex: parameter sets                       *)
+Sc(ops, len1, len2, labels, modes, pats, thr, minp, sex) ==
+    [ops |-> ops, len1 |-> len1, len2 |-> len2, labels |-> labels, modes |-> modes, pats |-> pats,
+     thr |-> thr, minp |-> minp, sex |-> sex]
+Scopes(tier) ==
+    IF tier = "quick" THEN <<
+        Sc({"by_gene"}, 5, 0, LabelsPlain, {0, 1, 2}, {1}, ThrTwo, {0}, SexNone),
+        Sc({"by_gene"}, 3, 2, LabelsPlain, {0, 2}, {1}, ThrTwo, {0}, SexNone),
+        Sc({"by_gene"}, 4, 0, LabelsComma, {0, 2}, {1}, ThrTwo, {0}, SexNone),
+        Sc({"squash"}, 4, 0, LabelsFour, {0, 2}, {1}, ThrTwo, {0}, SexNone),
+        Sc({"genemetrics"}, 4, 0, LabelsFour, {2}, {2}, ThrTwo, {0, 2}, SexTwo),
+        Sc({"genemetrics"}, 2, 2, LabelsFour, {2}, {2}, ThrTwo, {2}, SexTwo),
+        Sc({"genemetrics_seg"}, 3, 0, LabelsFour, {2}, {1}, ThrTwo, {0, 2}, SexNone),
+        Sc({"breaks"}, 4, 0, LabelsThree, {0}, {1}, ThrTwo, {1, 2}, SexNone) >>
+    ELSE <<
+        Sc({"by_gene"}, 6, 0, LabelsPlain, {0, 1, 2, 3}, {1}, ThrTwo, {0}, SexNone),
+        Sc({"by_gene"}, 4, 3, LabelsPlain, {0, 1, 2}, {1}, ThrTwo, {0}, SexNone),
+        Sc({"by_gene"}, 5, 0, LabelsComma, {0, 1, 2, 3}, {1}, ThrTwo, {0}, SexNone),
+        Sc({"squash"}, 5, 0, LabelsPlain, {0, 1, 2}, {1}, ThrTwo, {0}, SexNone),
+        Sc({"squash"}, 3, 2, LabelsFour, {0, 2}, {1}, ThrTwo, {0}, SexNone),
+        Sc({"genemetrics"}, 4, 0, LabelsPlain, {0, 2}, {1, 2}, ThrThree, {0, 1, 2, 3}, SexThree),
+        Sc({"genemetrics"}, 3, 2, LabelsFour, {2}, {2}, ThrThree, {0, 2, 3}, SexThree),
+        Sc({"genemetrics_seg"}, 4, 0, LabelsFour, {0, 2}, {1}, ThrThree, {0, 1, 2, 3}, SexNone),
+        Sc({"genemetrics_seg"}, 2, 2, LabelsFour, {2}, {1}, ThrTwo, {0, 2}, SexThree),
+        Sc({"breaks"}, 5, 0, LabelsFour, {0, 2}, {1}, ThrTwo, {1, 2, 3}, SexNone) >>
 
-LabSeqs(n) == UNION {[1..m -> Labels] : m \in 1..n}
-LabChoices == (IF 1 \in NChroms THEN {<<a>> : a \in LabSeqs(MaxLen1)} ELSE {})
-              \cup (IF 2 \in NChroms THEN {<<a, b>> : a \in LabSeqs(MaxLen1), b \in LabSeqs(MaxLen2)} ELSE {})
+LabSeqs(labels, n) == UNION {[1..m -> labels] : m \in 1..n}
+LabChoices(sc) == IF sc.len2 = 0 THEN {<<a>> : a \in LabSeqs(sc.labels, sc.len1)}
+                  ELSE {<<a, b>> : a \in LabSeqs(sc.labels, sc.len1), b \in LabSeqs(sc.labels, sc.len2)}
 
 XPat == << <<8, 4, -8, 0, 12, 2, -4>>, <<4, -160, 8, -2, 0>> >>      \* pattern 2 has a low-coverage log2 (-20)
 WPat == << <<8, 4, 8, 2, 6>>, <<8, 2, 4>> >>
@@ -71,24 +89,25 @@ P0 == [tn |-> 1, td |-> 5, minp |-> 3, skip |-> FALSE, hap |-> FALSE, female |->
        sqat |-> FALSE, sfun |-> "max", segcols |-> TRUE]
 LastChrom(bins) == BC(bins[Len(bins)])
 WithSex(p, sx, bins) == [p EXCEPT !.female = sx[1], !.hap = sx[2], !.xc = IF sx[3] THEN LastChrom(bins) ELSE 0]
-Params(o, bins) ==
+Params(sc, o, bins) ==
     CASE o = "by_gene"         -> {P0}
       [] o = "squash"          -> {[P0 EXCEPT !.sqat = q, !.sfun = f] : q \in BOOLEAN, f \in {"max", "min"}}
       [] o = "genemetrics"     -> {WithSex([P0 EXCEPT !.tn = th[1], !.td = th[2], !.minp = mp, !.skip = sk], sx, bins) :
-                                      th \in ThrSet, mp \in MinpSet, sk \in BOOLEAN, sx \in SexSet}
-      [] o = "genemetrics_seg" -> {WithSex([P0 EXCEPT !.tn = th[1], !.td = th[2], !.minp = mp, !.segcols = sc], sx, bins) :
-                                      th \in ThrSet, mp \in MinpSet, sc \in BOOLEAN, sx \in SexSet}
-      [] o = "breaks"          -> {[P0 EXCEPT !.minp = mp] : mp \in MinpSet \ {0}}
+                                      th \in sc.thr, mp \in sc.minp, sk \in BOOLEAN, sx \in sc.sex}
+      [] o = "genemetrics_seg" -> {WithSex([P0 EXCEPT !.tn = th[1], !.td = th[2], !.minp = mp, !.segcols = c], sx, bins) :
+                                      th \in sc.thr, mp \in sc.minp, c \in BOOLEAN, sx \in sc.sex}
+      [] o = "breaks"          -> {[P0 EXCEPT !.minp = mp] : mp \in sc.minp \ {0}}
       [] OTHER                 -> {P0}
 
 VARIABLES op, bins, segs, par, ph, out
 vars == <<op, bins, segs, par, ph, out>>
 Rec == [op |-> op, bins |-> bins, segs |-> segs, par |-> par, out |-> out, err |-> ""]
 
-Init == /\ op \in McOps
-        /\ \E labs \in LabChoices, mode \in IxModes, pat \in Pats : bins = MkBins(labs, mode, pat)
+Init == \E id \in ScopeIds : LET sc == Scopes(Tier)[id] IN
+        /\ op \in sc.ops
+        /\ \E labs \in LabChoices(sc), mode \in sc.modes, pat \in sc.pats : bins = MkBins(labs, mode, pat)
         /\ TableOK(bins) /\ GenesContiguous(bins)          \* the scope: tables satisfying the premise
-        /\ par \in Params(op, bins)
+        /\ par \in Params(sc, op, bins)
         /\ segs \in SegChoices(op, bins)
         /\ ph = "call" /\ out = <<>>
 Call == /\ ph = "call" /\ ph' = "ret"
